@@ -463,6 +463,11 @@ pub fn gen_stream(rng: &mut Rng, cfg: ProdCfg) -> Stream {
                 let op = *g.rng.pick(&body_pool);
                 insts.push(g.inst(op));
             }
+            // structured control flow: a merge instruction right in front of the terminator
+            if g.rng.chance(1, 5) {
+                let mop = if g.rng.chance(2, 3) { s.op("SelectionMerge") } else { s.op("LoopMerge") };
+                insts.push(g.inst(mop));
+            }
             let t = if g.rng.chance(1, 4) { s.op("Switch") } else { *g.rng.pick(&term_pool) };
             insts.push(g.inst(t));
         }
@@ -480,6 +485,10 @@ pub fn gen_stream(rng: &mut Rng, cfg: ProdCfg) -> Stream {
         },
         insts,
     };
+    link_merges(rng, &mut stream);
+    if rng.chance(1, 10) {
+        plant_linkage(rng, &mut stream);
+    }
     // one result id (and every reference to it) moved to a boundary value: 0, 2^31, u32::MAX
     if rng.chance(1, 25) {
         let rids: Vec<u32> = stream.insts.iter().filter_map(|i| i.rid).collect();
@@ -612,6 +621,68 @@ pub fn plant_giant(rng: &mut Rng, stream: &mut Stream) {
         }
     }
     stream.header.bound += 2;
+}
+
+/// Structured control flow as real modules have it: half of the merge instructions name the label that follows
+/// them in the stream (their merge block) and branch terminators name labels of the same function.
+pub fn link_merges(rng: &mut Rng, stream: &mut Stream) {
+    let s = snap();
+    let n = stream.insts.len();
+    for k in 0..n {
+        let is_merge = stream.insts[k].is("SelectionMerge") || stream.insts[k].is("LoopMerge");
+        let is_branch = stream.insts[k].is("Branch") || stream.insts[k].is("BranchConditional");
+        if !(is_merge || is_branch) || !rng.chance(1, 2) {
+            continue;
+        }
+        let next_label = stream.insts[k + 1..].iter().take_while(|i| !i.is("FunctionEnd")).find(|i| i.is("Label")).and_then(|i| i.rid);
+        if let Some(l) = next_label {
+            let slot = if is_branch && stream.insts[k].is("BranchConditional") { 1 } else { 0 };
+            if let Some(MOp::W(kk, v)) = stream.insts[k].ops.get_mut(slot) {
+                if *kk == s.k_idref {
+                    *v = l;
+                }
+            }
+        }
+    }
+}
+
+/// Hot spot where SPIR-V semantics tie annotations to structure: the Linkage capability and a
+/// LinkageAttributes decoration (Import: "a declaration without a body") on a function id.
+pub fn plant_linkage(rng: &mut Rng, stream: &mut Stream) {
+    let s = snap();
+    let funcs: Vec<u32> = stream.insts.iter().filter(|i| i.is("Function")).filter_map(|i| i.rid).collect();
+    let rids: Vec<u32> = stream.insts.iter().filter_map(|i| i.rid).collect();
+    let target = if !funcs.is_empty() && rng.chance(7, 8) {
+        *rng.pick(&funcs)
+    } else if !rids.is_empty() {
+        *rng.pick(&rids)
+    } else {
+        stream.header.bound.wrapping_add(1)
+    };
+    let k_dec = s.kind("Decoration");
+    let k_lt = s.kind("LinkageType");
+    let k_cap = s.kind("Capability");
+    let number = |k: KindId, name: &str| s.enums[&k].values.iter().find(|(_, n)| n.as_str() == name).map(|(v, _)| *v);
+    let (Some(la), Some(linkage)) = (number(k_dec, "LinkageAttributes"), number(k_cap, "Linkage")) else { return };
+    let lt = *rng.pick(&s.enums[&k_lt].numbers);
+    let name = *rng.pick(&["f", "main", "ext_fn", "", "é"]);
+    let dec = MInst {
+        opcode: s.op("Decorate"),
+        rtype: None,
+        rid: None,
+        ops: vec![MOp::W(s.k_idref, target), MOp::W(k_dec, la), MOp::S(name.to_string()), MOp::W(k_lt, lt)],
+    };
+    // in layout order: behind the last instruction of the sections up to the annotations
+    let at = stream
+        .insts
+        .iter()
+        .position(|i| !matches!(crate::layout::class_of(i.opcode), Lc::Section(sec) if sec <= layout::SEC_ANNOT))
+        .unwrap_or(stream.insts.len());
+    stream.insts.insert(at, dec);
+    if rng.chance(3, 4) {
+        let cap = if rng.chance(3, 4) { linkage } else { number(k_cap, "Kernel").unwrap_or(linkage) };
+        stream.insts.insert(0, MInst { opcode: s.op("Capability"), rtype: None, rid: None, ops: vec![MOp::W(k_cap, cap)] });
+    }
 }
 
 /// Hot spot for the disassembler's extended-instruction naming: an import of a known set and an
